@@ -193,3 +193,14 @@ def install(I):
         H[c04.combine_calls] = _combine_calls
     except ImportError:
         pass
+
+    def _union_all(I, args, kw, star, dstar, node):
+        (v,) = args
+        ci = I.concrete_iter(v)
+        if ci is not None:
+            t = z3.EmptySet(V)
+            for x in ci:
+                t = z3.SetUnion(t, I.as_set(x))
+            return SymSet(t)
+        return SymSet(z3.SetUnion(z3.EmptySet(V), I.union_of_seq(I.as_seq(v))))
+    H[api.union_all] = _union_all
